@@ -361,6 +361,41 @@ static Case cases[] = {
          }
          return bad;
      }},
+    // ---- C19: words above index_ are zero after an operation that lowers it
+    {"bigint_copy_assign_shorter_source", [] {
+         using B = BigInt<unsigned long long, 256U>;
+         B a{7ULL};
+         a <<= 64U;
+         a |= 9ULL;
+         a <<= 64U;
+         a |= 1ULL;          // words 1, 9, 7
+         B b{5ULL};
+         a = b;              // one word now
+         a += 0xFFFFFFFFFFFFFFFFULL;   // 5 + (2^64 - 1) = 2^64 + 4
+         const bool ok = (a.Index() == 1U) && (a.Storage()[0] == 4ULL) && (a.Storage()[1] == 1ULL);
+         return ok ? 0 : (printf("expected [4 1], got [%llx %llx]\n", (unsigned long long)a.Storage()[0], (unsigned long long)a.Storage()[1]), 1);
+     }},
+    {"bigint_and_narrower_number", [] {
+         using B = BigInt<unsigned long long, 256U>;
+         B e{7ULL};
+         e <<= 128U;
+         e |= 0xFFULL;
+         e &= 0x0FULL;       // 0x0F
+         e <<= 64U;          // 0x0F << 64
+         e.Add(0xFFFFFFFFFFFFFFF1ULL, 1U);   // word 1 overflows to 0 and carries into word 2: exactly 2^128
+         const bool ok = (e.Index() == 2U) && (e.Storage()[2] == 1ULL) && (e.Storage()[3] == 0ULL) && (e.Storage()[1] == 0ULL);
+         return ok ? 0 : (printf("expected [0 0 1 0], got [%llx %llx %llx %llx]\n", (unsigned long long)e.Storage()[0], (unsigned long long)e.Storage()[1],
+                                 (unsigned long long)e.Storage()[2], (unsigned long long)e.Storage()[3]), 1);
+     }},
+    {"bigint_multiply_by_zero_predicates", [] {
+         using B = BigInt<unsigned long long, 256U>;
+         B d{7ULL};
+         d <<= 128U;
+         d |= 3ULL;
+         d *= 0ULL;
+         const bool ok = d.IsZero() && !d.NotZero() && (d == 0ULL) && (d < 5ULL) && !d.IsBig();
+         return ok ? 0 : (printf("expected zero predicates after x *= 0, got IsZero=%d NotZero=%d Index=%u\n", (int)d.IsZero(), (int)d.NotZero(), d.Index()), 1);
+     }},
     // ---- C10: digits of the integer part are not trailing zeros of the fraction
     {"digit_integer_zeros_kept", [] {
          struct { double v; unsigned p; Digit::RealFormatType t; const char *want; } cs[] = {
